@@ -338,7 +338,9 @@ def _arrays(ckind, pos, tkind, direction, length, fixed, zt, elt, ndir):
         want_zt = '0' if ZT[zt][1] == '0' else '1'
         eff = t.get('zero-terminated')
         if eff is None:
-            eff = '1'       # GIR default when the attribute is absent
+            # GIR default when the attribute is absent: zero-terminated unless a
+            # length or a fixed size is given (girepository/girparser.c, start_type)
+            eff = '0' if (t.get('length') is not None or t.get('fixed-size') is not None) else '1'
         if eff != want_zt:
             return '(array zero-terminated%s): zero-terminated=%r' % (
                 '' if ZT[zt][1] is None else '=' + ZT[zt][1], t.get('zero-terminated'))
